@@ -10,7 +10,7 @@ COQ_IMPORTS = ["From HTA.model Require Import C05_Model."]
 SOURCES = {"hta/analyzers/breakdown_analysis.py": ["get_gpu_kernel_breakdown", "_get_gpu_kernel_type_time", "_aggr_gpu_kernel_time",
                                                    "get_gpu_user_annotation_breakdown"],
            "hta/utils/utils.py": ["merge_kernel_intervals", "get_kernel_type", "is_comm_kernel", "is_memory_kernel", "is_compute_kernel"]}
-TRANSLATE = [translate.gen_kernel_rules, translate.gen_launch_names]
+TRANSLATE = [translate.gen_kernel_rules, translate.gen_launch_names, translate.gen_kernel_breakdown_rules]
 INPUT_CONTRACT = True        # the loaded frame is re-checked against the file (framework.input_contract)
 N_CASES = {"quick": 300, "thorough": 5000}
 RULE = ("generated file sets (free placement of device intervals on tiny time domains: identical, nested, touching, zero-length; computation, communication and "
